@@ -15,34 +15,34 @@ import (
 )
 
 type Gen struct {
-	r      *vh.Rand
-	Known  bool // allow known-defect shapes
-	budget int  // remaining node budget
-	ids    int
-	used   map[string]bool // element kinds used (histogram)
+	r       *vh.Rand
+	Known   bool // allow known-defect shapes
+	budget  int  // remaining node budget
+	ids     int
+	used    map[string]bool // element kinds used (histogram)
 	hasMain bool
-	tmpl   bool // sprinkle {{ }} template actions
+	tmpl    bool // sprinkle {{ }} template actions
 }
 
 // content-model context
 type ctx struct {
-	phrasing   bool // only phrasing content allowed
-	noInter    bool // no interactive content (inside a, button, label...)
-	noA        bool
-	noLabel    bool
-	noForm     bool
-	noDfn      bool
-	noHF       bool // no header/footer
-	noSect     bool // no sectioning content / headings (address, th, dt)
-	noHeading  bool
-	noTable    bool
-	noNoscript bool
-	noMedia    bool
-	noMain     bool
-	noAddress  bool
+	phrasing    bool // only phrasing content allowed
+	noInter     bool // no interactive content (inside a, button, label...)
+	noA         bool
+	noLabel     bool
+	noForm      bool
+	noDfn       bool
+	noHF        bool // no header/footer
+	noSect      bool // no sectioning content / headings (address, th, dt)
+	noHeading   bool
+	noTable     bool
+	noNoscript  bool
+	noMedia     bool
+	noMain      bool
+	noAddress   bool
 	noObjectish bool
-	depth      int
-	parent     string
+	depth       int
+	parent      string
 }
 
 var entityNames []string
@@ -441,7 +441,7 @@ func (g *Gen) rawElem(tag, content string) *Node {
 
 var scriptBodies = []string{
 	"x = 1 ;", "var a = \"<b>\" ;\n", "if (a < b && c > d) { f() }", "document.write('<p>x<\\/p>');", "a = '&amp;' + \"&lt;\";",
-	"<!-- \n x = 1 \n-->", "<!-- <script> a() </script> --> b = 2 ;", "var s = \"<\\/script>\";", "  \n  y  =  2  \n ", "a</scrip>b", "x = '</scriptx>'; ",
+	"<!-- \n x = 1 \n-->", "<!-- <script> a() </script> --> b = 2 ;", "var s = \"<\\/script>\";", "  \n  y  =  2  \n ", "y = \"a</scrip>b\"", "x = '</scriptx>'; ",
 	"/* </style> */ z()", "var t = `a${b}c`; // c", "a = b + +c ; d = e - -f", "f(\"  \")", "0", "\"use strict\";", "'<\\/SCRIPT' + 'x'",
 }
 
@@ -1263,7 +1263,7 @@ func (g *Gen) mkAttr(name, logical string) Attr {
 	if g.r.Chance(1, 16) {
 		a.SpEq = true
 	}
-	if g.tmpl && g.r.Chance(1, 10) && q != 0 && name != "type" && name != "http-equiv" && name != "name" && (name != "content" || g.Known) {
+	if g.tmpl && g.r.Chance(1, 10) && q != 0 && name != "type" && name != "http-equiv" && name != "name" && (name != "content" || g.Known) && name != "style" && !strings.HasPrefix(name, "on") {
 		other := "'"
 		if q == '\'' {
 			other = "\""
